@@ -46,7 +46,7 @@ def group_op(kind, variant):
     return T("fetch_group_offsets", [G, [T("fgo", [T1, 0]), T("fgo", [T1, 1])]])
 
 
-def make_case(rng, kind, seq, limit, moved=False, endless=None, place=None, sequel=False, unlisted=False):
+def make_case(rng, kind, seq, limit, moved=False, endless=None, place=None, sequel=False, unlisted=False, lookups=0):
     nb, coord = place if place else (0, 0)
     nb = nb or rng.choice([2, 3])
     coord = coord or rng.randint(1, nb)
@@ -87,6 +87,10 @@ def make_case(rng, kind, seq, limit, moved=False, endless=None, place=None, sequ
     else:
         key = "commit_script" if kind == "commit" else "group_fetch_script"
         spec[key] = spec.get(key, []) + list(seq)
+    if lookups and kind != "lookup" and not moved and endless is None:
+        # the lookup that precedes the first attempt is itself answered 'coordinator not available' a few times: the lookup and the
+        # commit / offset fetch each have the full number of attempts
+        spec["coordinator_script"] = {G: [15] * lookups}
     ops.append(group_op("fetch" if kind == "lookup" else kind, variant))
     under = len(ops) - 1
     if sequel and endless is None:
@@ -95,7 +99,7 @@ def make_case(rng, kind, seq, limit, moved=False, endless=None, place=None, sequ
         ops.append(group_op(rng.choice(["commit", "fetch"]), rng.randint(0, 1)))
     return {"cluster": spec, "ops": ops,
             "meta": {"kind": kind, "seq": list(seq)[:8], "limit": limit, "moved": bool(moved), "endless": endless is not None,
-                     "first": first, "storage": storage, "coord": coord, "under": under, "sequel": len(ops) - 1 > under, "unlisted": unlisted}}
+                     "first": first, "storage": storage, "coord": coord, "under": under, "sequel": len(ops) - 1 > under, "unlisted": unlisted, "lookups": lookups}}
 
 
 def pick_limits(rng, tier, seq):
@@ -127,6 +131,15 @@ def gen(rng, tier):
         for code in RETRY:
             for limit in range(6):
                 cases.append(make_case(rng, kind, [], limit, endless=code))
+    # retryable answers to BOTH request kinds within one call
+    for kind in ("commit", "fetch"):
+        for seq in sequences(2 if tier == "quick" else 3):
+            j = sum(1 for a in seq if a in RETRY)
+            for limit in range(2, 6):
+                for lk in range(1, limit):
+                    if tier == "quick" and rng.random() < 0.5:
+                        continue
+                    cases.append(make_case(rng, kind, seq, limit, lookups=lk))
     # the coordinator is a broker the loaded metadata does not list
     for kind in OPS:
         for seq in sequences(2 if tier == "quick" else 3):
@@ -309,6 +322,8 @@ def stats(case, recs):
         s["moved"] = 1
     if m.get("unlisted"):
         s["coordinator_not_in_metadata"] = 1
+    if m.get("lookups"):
+        s["lookup_retried_in_same_call"] = 1
     if m["endless"]:
         s["endless"] = 1
     else:
